@@ -272,8 +272,8 @@ class BaseTask(object, metaclass=abc.ABCMeta):
         # Basic variables
         self.est = est if est != 0.0 else 0.0  # Earliest start time
         self.eft = eft if eft != 0.0 else 0.0  # Earliest finish time
-        self.lst = lst if lst != 0.0 else -1.0  # Latest start time
-        self.lft = lft if lft != 0.0 else -1.0  # Latest finish time
+        self.lst = lst  # Latest start time
+        self.lft = lft  # Latest finish time
         if remaining_work_amount is not None:
             self.remaining_work_amount = remaining_work_amount
         else:
